@@ -57,6 +57,15 @@ func mkScratch() string {
 			base = os.TempDir()
 		}
 	}
+	// scratch directories of runs that were killed from outside (no chance to clean up) are removed
+	// once they are older than any run can last
+	if old, _ := filepath.Glob(filepath.Join(base, "vcheck-*")); len(old) > 0 {
+		for _, o := range old {
+			if st, err := os.Stat(o); err == nil && time.Since(st.ModTime()) > 12*time.Hour {
+				os.RemoveAll(o)
+			}
+		}
+	}
 	d, err := os.MkdirTemp(base, "vcheck-")
 	if err != nil {
 		die("scratch: %v", err)
